@@ -493,8 +493,75 @@ def copy_check(ctx, mode, state):
         ctx.nontriv((mode, state, how))
 
 
+def set_member_cells(ctx):
+    """sets whose members are frozensets, and set-valued arguments to the
+    lookup operations (the built-in looks a set argument up as the equal
+    frozenset): lock-step with the built-in, event laws as everywhere"""
+    fs = frozenset
+    members = [fs({1}), fs({2}), 5]
+    args = [{1}, {2}, {9}, set(), fs({1}), fs({9}), TraitSet({1}), 5, 9]
+    states_ = [list(c) for r in range(len(members) + 1)
+               for c in itertools.combinations(members, r)]
+    for st in states_:
+        for opname in ("discard", "remove", "add", "contains"):
+            for ai, arg in enumerate(args):
+                if opname == "add" and isinstance(arg, set):
+                    pass        # unhashable: TypeError on both sides
+                case = {"mode": "set-members", "before": [repr(x) for x in st],
+                        "op": opname, "arg": ai}
+                ctx.case(case)
+                ctx.ev()
+                ctx.tr()
+                rec = Rec()
+                ts = TraitSet(st, notifiers=[rec])
+                ref = set(st)
+                before = set(ref)
+
+                def run(target):
+                    try:
+                        if opname == "contains":
+                            return ("ok", arg in target)
+                        getattr(target, opname)(arg)
+                        return ("ok", None)
+                    except Exception as e:
+                        return ("exc", type(e).__name__)
+                want, got = run(ref), run(ts)
+
+                def bad(kind, msg):
+                    ctx.violation("C07:set-members:%s:%s" % (kind, opname),
+                                  msg, **case)
+                if got != want:
+                    bad("outcome", "%s(%r) on %r: %r, built-in set %r" % (
+                        opname, arg, before, got, want))
+                if set(ts) != ref:
+                    bad("contents", "%s(%r) on %r leaves %r, built-in set "
+                        "%r" % (opname, arg, before, set(ts), ref))
+                    continue
+                if got[0] == "exc":
+                    ctx.outcome(got[1])
+                    if rec.events:
+                        bad("failed-op-notified", "a failing %s notified"
+                            % opname)
+                    continue
+                if ref != before:
+                    ctx.outcome("event")
+                    if len(rec.events) != 1:
+                        bad("event-count", "%s(%r) changed %r to %r with %d "
+                            "notification(s)" % (opname, arg, before, ref,
+                                                 len(rec.events)))
+                    else:
+                        err = check_event(before, ref, rec.events[0])
+                        if err:
+                            bad("event", err)
+                elif rec.events:
+                    bad("noop-event", "nothing changed but %r was notified"
+                        % (rec.events,))
+                else:
+                    ctx.outcome("silent-noop")
+
+
 def shards(tier):
-    out = []
+    out = [{"kind": "set-members", "mode": "id"}]
     n = 4 if tier == "quick" else 8
     for mode in MODES:
         for c in range(n):
@@ -509,6 +576,10 @@ def run_shard(ctx, shard, tier):
     mode = shard["mode"]
     sitems, _ = alph(mode)
     sts = subsets(sitems)
+    if shard["kind"] == "set-members":
+        set_member_cells(ctx)
+        ctx.depth_completed = 1
+        return
     if shard["kind"] == "copy":
         for st in sts:
             ctx.state((mode, st))
@@ -554,6 +625,11 @@ def replay(rec):
     ctx = Ctx("C07", None, "quick", 0)
     case = rec["case"]
     mode = case["mode"]
+    if mode == "set-members":
+        set_member_cells(ctx)
+        for v in ctx.violations.values():
+            print("  violation:", v["sig"], v["msg"])
+        return not ctx.violations
     if "copy" in case:
         global COPIES
         COPIES = [case["copy"]]
